@@ -13,6 +13,7 @@ LEVEL_NOTE = ('relational: every reader is proved against the SAME spec terms '
               'between restore and the others on the pinned tree: known '
               'finding KF-C20-home-volume.')
 EXPECTED = [
+    'list-action/every-message-is-printed-exactly-once',
     'list-options/trash-dirs-are-the-option-values-in-order',
     'list-options/attribute-is-the-date-unless-size',
     'list-options/action-is-listing-unless-the-last-action-flag-says-otherwise',
@@ -52,6 +53,7 @@ def build(S, tier, seed):
     # selector; restore through TrashDirectories2 (proved above)
     selector_cli_vc(S)
     options.list_options_vc(S)
+    readers.list_action_vc(S)
 
 
 def selector_cli_vc(S, prefix='selector'):
